@@ -402,6 +402,15 @@ def gen_string(rng, nmax):
     n = rng.randrange(1, nmax + 1)
     ft = rng.choice(["str", "str", "str", "cat", "cat", "cat", "enum", "enum", "strnull", "catnull"])
     ncat = rng.randrange(1, 9)
+    if rng.random() < 0.08:
+        # many categories: the pooled count k becomes 10, 12, 20, 100, 120, 1000, 1234, ... (label formatting)
+        ncat = rng.choice([11, 12, 13, 21, 22, 31, 101, 102, 121])
+        pool = [f"c{i:04d}" for i in range(ncat)]
+        n = max(n, ncat)
+        vals = list(pool) + [pool[0]] * (n - ncat) + [pool[0], pool[1]]
+        rng.shuffle(vals)
+        ft = rng.choice(["str", "cat"])
+        return dict(ftype=ft, n_bins=rng.choice([2, 3]), method="quantile", values=vals)
     pool = rng.sample(WORDS, ncat)
     skew = rng.choice(["uniform", "zipf", "ties", "ties"])
     if skew == "uniform":
